@@ -258,6 +258,42 @@ def check_quantity(res, xs, p, fmt, uname, unit):
         res.violation("C20|number_to_scientific_%s|unit-after-number" % fmt, "%s %s printed as %r, expected %r followed by %r" % (xs, uname, got, bare, utxt), case, got, bare + sep + utxt)
 
 
+UQ_PAIRS = [("km", "m", 1000.0), ("minute", "second", 60.0), ("m", "m", 1.0)]
+
+
+def check_uncertain_quantity(res, xs, xes, p, fmt, pair, how):
+    """a quantity carrying its own uncertainty (quantities.UncertainQuantity), or given one as a quantity, printed in a requested
+    unit: value AND uncertainty are converted to that unit — the text is the one printed for the converted plain numbers,
+    followed by the unit"""
+    import quantities as pq
+    from chempy import units as U
+
+    ua, ub, f = UQ_PAIRS[pair]
+    qa, qb = getattr(U.default_units, ua), getattr(U.default_units, ub)
+    x, xe = float(xs), float(xes)
+    res.states += 1
+    res.transitions += 1
+    res.evaluations += 1
+    res.nontrivial += 1
+    case = dict(layer="UQ", x=xs, xe=xes, p=p, fmt=fmt, pair=pair, how=how)
+    unit_fmt = {"latex": U.latex_of_unit, "unicode": U.unicode_of_unit, "html": U.html_of_unit}[fmt]
+    sep = "\\," if fmt == "latex" else " "
+    try:
+        if how == "UncertainQuantity":
+            got = _fn(fmt)(pq.UncertainQuantity(x, qa, xe), unit=qb, fmt=p)
+        else:
+            got = _fn(fmt)(x * qa, xe * qa, unit=qb, fmt=p)
+        want = _fn(fmt)(x * f, xe * f, fmt=p) + sep + unit_fmt(qb)
+    except Exception as e:
+        res.outcomes["uncertain-quantity-RAISES"] += 1
+        res.violation("C20|number_to_scientific_%s|uncertain-quantity|raises" % fmt, "printing (%s +- %s) %s in %s (%s) raised %s" % (xs, xes, ua, ub, how, type(e).__name__), case, "EXC %s" % type(e).__name__, None)
+        return
+    ok = got == want
+    res.outcomes["uncertain-quantity-ok" if ok else "uncertain-quantity-WRONG"] += 1
+    if not ok:
+        res.violation("C20|number_to_scientific_%s|uncertain-quantity|%s" % (fmt, how), "(%s +- %s) %s printed in %s (%s, %d digits) as %r; the converted numbers print as %r" % (xs, xes, ua, ub, how, p, got, want), case, got, want)
+
+
 def check_param(res, mag, uname, unit, order, fmtname):
     """Reaction printed with its parameter shows magnitude (printed precision) and unit"""
     from chempy import Reaction, Substance
@@ -444,6 +480,12 @@ def run_chunk(chunk, tier):
                     for fmt in FMTS:
                         check_quantity(res, xs, p, fmt, uname, unit)
             res.symbols[uname] += 1
+        for xs, xes in (("315.0", "1.79e-3"), ("2.5", "0.125"), ("1.4142e-7", "3e-10"), ("-7.25e4", "12.5")):
+            for p in (1, 2):
+                for fmt in FMTS:
+                    for pair in range(len(UQ_PAIRS)):
+                        for how in ("UncertainQuantity", "uncertainty-as-quantity"):
+                            check_uncertain_quantity(res, xs, xes, p, fmt, pair, how)
         res.sample(dict(layer="Q", x="3.14159e-7", unit="m/s"))
     elif chunk[0] == "T":
         form = ("dict", "list", "dict+substances-reversed", "dict+substances-subset")[chunk[1]]
@@ -491,6 +533,8 @@ def replay(case):
 
         pool = dict([("1/s", 1 / u.s), ("1/min", 1 / u.minute), ("1/hour", 1 / u.hour), ("1/ms", 1 / u.ms)])
         check_param_system(res, [(n, pool[n]) for n in case["units"]], case["fmt"])
+    elif L == "UQ":
+        check_uncertain_quantity(res, case["x"], case["xe"], case["p"], case["fmt"], case["pair"], case["how"])
     elif L == "Q":
         check_quantity(res, case["x"], case["p"], case["fmt"], case["unit"], dict(_units())[case["unit"]])
     else:
